@@ -286,7 +286,7 @@ class CallMixin:
             opn = name.split(".")[1]
             cmpop = {"eq": ast.Eq, "ne": ast.NotEq, "lt": ast.Lt, "le": ast.LtE, "gt": ast.Gt, "ge": ast.GtE}.get(opn)
             if cmpop:
-                return OpFunc(cmpop)
+                return self.compare(cmpop(), args[0], args[1])
         if name in ("itertools.product", "product"):
             ls = [self.to_pylist(a) for a in args]
             if any(x is None for x in ls):
@@ -304,8 +304,69 @@ class CallMixin:
             return out
         raise OutsideSubset(f"builtin {name}")
 
+    # hash(): uninterpreted per kind; a tuple's hash is a function of its items' hashes (A-STDLIB)
+    HSTR = z3.Function("hash_str", z3.StringSort(), z3.IntSort())
+    HVER = z3.Function("hash_version", z3.RealSort(), z3.IntSort())
+    HNONE = z3.Int("hash_None")
+    _HT = {}
+
+    def hash_tuple(self, hs):
+        n = len(hs)
+        if n not in self._HT:
+            self._HT[n] = z3.Function(f"hash_tuple{n}", *([z3.IntSort()] * n), z3.IntSort())
+        return self._HT[n](*hs) if n else z3.IntVal(5740354900026072187)
+
     def hash_of(self, v):
-        raise OutsideSubset("hash()")
+        if isinstance(v, bool):
+            return z3.IntVal(1 if v else 0)
+        if isinstance(v, int):
+            return z3.IntVal(v)
+        if v is None:
+            return self.HNONE
+        if isinstance(v, str):
+            return self.HSTR(z3.StringVal(v))
+        if z3.is_expr(v):
+            if z3.is_string(v):
+                return self.HSTR(v)
+            if z3.is_bool(v):
+                return z3.If(v, 1, 0)
+            if z3.is_real(v):
+                return self.HVER(v)
+            if z3.is_int(v):
+                return v
+        if isinstance(v, Opt):
+            return z3.If(v.has, self.hash_of(v.val), self.HNONE)
+        if isinstance(v, (tuple, list)) and not isinstance(v, list):
+            return self.hash_tuple([self.hash_of(x) for x in v])
+        if isinstance(v, AList) and v.is_tuple:
+            if self.theory is not None and hasattr(self.theory, "hash_alist"):
+                return self.theory.hash_alist(self, v)
+        if isinstance(v, SymObj):
+            v = self.concretize(v)
+        if isinstance(v, AbsObj):
+            return v.theory.hash_of(self, v)
+        if isinstance(v, Obj):
+            f, owner = self.index.find_method(v.cls, "__hash__")
+            if f is not None and not self._dataclass_hash_shadows(v.cls, owner):
+                return self.call_function(f, [v])
+            if any(c.dataclass is not None for c in self.index.mro(v.cls)):
+                fields = [fl for fl in self.index.all_fields(v.cls) if (fl.hash if fl.hash is not None else fl.compare)]
+                return self.hash_tuple([self.hash_of(v.fields[fl.name]) for fl in fields])
+            if self._is_enum(v.cls):
+                return self.hash_of(v.fields["_name_"])
+        raise OutsideSubset(f"hash() of {v!r}")
+
+    def _dataclass_hash_shadows(self, cls, owner):
+        """@dataclass(unsafe_hash=True) (or eq+frozen) on a class nearer in the MRO replaces an inherited __hash__;
+        a __hash__ defined in the decorated class body itself is kept only without unsafe_hash."""
+        for c in self.index.mro(cls):
+            if c.dataclass is not None and (c.dataclass.get("unsafe_hash") or (c.dataclass.get("frozen") and c.dataclass.get("eq", True))):
+                if c is owner and not c.dataclass.get("unsafe_hash"):
+                    return False
+                return True
+            if c is owner:
+                return False
+        return False
 
     def isinstance(self, v, c):
         if isinstance(c, tuple):
@@ -502,7 +563,19 @@ class CallMixin:
             if name == "endswith":
                 return z3.SuffixOf(args[0], z3.StringVal(recv))
         if isinstance(recv, AList):
-            if name == "index" or name == "count":
+            if name == "index":
+                # first index holding an element == args[0]; ValueError when absent
+                if not self.truth(self.contains(recv, args[0])):
+                    raise RaiseEx("ValueError", "x not in list")
+                idx = z3.Int(fresh_name("idx"))
+                sh = recv.shape
+                it = sh.enc(args[0])
+                eq = (lambda t: sh.eq_terms(self, t, it)) if hasattr(sh, "eq_terms") else (lambda t: t == it)
+                j = z3.Int(fresh_name("ij"))
+                self.assume(z3.And(0 <= idx, idx < recv.n, eq(z3.Select(recv.arr, idx))))
+                self.assume(z3.ForAll([j], z3.Implies(z3.And(0 <= j, j < idx), z3.Not(eq(z3.Select(recv.arr, j))))))
+                return idx
+            if name == "count":
                 raise OutsideSubset(f"list.{name} on abstract list")
         raise OutsideSubset(f"method {name} of {recv!r}")
 
